@@ -349,6 +349,14 @@ R6_WHAT = {
     ('C12', 'r6m2'): "a 255-BYTE cap in the LP reader's name copy against labels of up to 255 CHARACTERS (3-byte quotes)",
     ('C14', 'r6m1'): "a 'record already sorted' shortcut in `slice` using `np.diff` on unsigned / boolean fields",
     ('C14', 'r6m2'): "`drop_variables` testing membership in the caller's argument: a `str` of one-character labels also drops the label `'xy'`",
+    ('C08', 'r6m2'): "`rtol` / `atol` tolerances slipped into `iter_violations(skip_satisfied=True)` (first caught by a source pin only; now by hard linear constraints violated by 2**-30 and a definition check of `skip_satisfied`)",
+    ('C05', 'r6m2'): "`fix_variable` clearing the discrete mark of every marked constraint that is momentarily not one-hot (caught by a source pin only)",
+    ('C09', 'r6m3'): "the `discrete` member of a CQM file read only for constraints without a stored weight (a constraint that is marked discrete AND soft)",
+    ('C10', 'r6m2'): "`np.fromfile` used for real on-disk files: a truncated file opened with `open(path, 'rb')` loads with records missing, while BytesIO input still raises",
+    ('C14', 'r6m3'): "`concatenate` permuting the sample columns of a later caller-owned INPUT in place (an `owned` flag never reset)",
+    ('C19', 'r6m1'): "`concatenate` dropping empty inputs before `stack_arrays`, which then returns the one remaining input's own record",
+    ('C19', 'r6m2'): "`cyVariables.copy()` sharing the index-to-label table of a range-labelled object (visible only after both sides acquire non-index labels)",
+    ('C19', 'r6m3'): "`VartypeView.__deepcopy__` under one shared memo (a model and its view deep-copied together)",
     ('C15', 'r6m1'): "`if not qm` instead of `if qm is None`: a supplied variable-free model with an offset is discarded by `make_quadratic`",
     ('C17', 'r6m1'): "`combinations(range(3, 7), k)` treated like the integer case",
 }
@@ -364,8 +372,12 @@ Again every miss was a blind spot of a GENERATOR (an argument form, a dtype, a l
 through a view of one expression), and each was closed by a stream that reaches the changed code, so that the catch is a
 replayable input and not a broken pin; {len(r6) - len(r6_open)} of {len(r6)} are recorded as caught now"""
            + (f", still open when this section was generated: {', '.join(p + ' ' + k for p, k in r6_open)}" if r6_open else "") + """.
-One false alarm was met and corrected in the machinery while doing so (C14: `concatenate(defaults=...)` casts a fill value
-to the dtype of the field it fills; the new bool / unsigned data vectors are kept out of that op). `harness/seed_eval.py`
+False alarms met and corrected in the machinery while doing so (never listed as findings): C14 - `concatenate(defaults=...)`
+casts a fill value to the dtype of the field it fills (the new bool / unsigned data vectors are kept out of that op; a first
+'re-evaluation' of C14 r6m3 had counted this alarm as a catch and was redone); C08 - an offset of 2**-30 under a QUADRATIC soft
+penalty is squared and no longer exact in binary64 (the tiny violations are now confined to hard linear constraints); C19 - the
+dict back-end moves a relabelled variable to the end of its order (labels compared as sets) and `copy.copy` of a class without
+`__copy__` is Python's shallow copy (used only where `__copy__` exists). `harness/seed_eval.py`
 now removes only the replay files of its own run, so evaluations can run next to registered checks.
 
 Round 6 also extended the models and proofs (builder sub-agents in private copies, merged and re-run here):
